@@ -253,3 +253,29 @@ Theorem C08_reveal_interleaved : forall n T M dr, (2 <= n)%nat -> TInv n T M ->
   let '(c, l3, r3) := if l_full (c_left (fst V)) then reveal_after n T dr l2 r2 {| l_ptrs := P; l_full := true |} (length P) else (0, l2, r2) in
   a + b + c = snd (rs_finish n (flat n T rs_init (us ++ ws ++ vs))) - snd U - snd Mf - snd V.
 Proof. intros n T M dr Hn I Hr Hx. exact (reveal_interleaved n Hn T M I dr Hr Hx). Qed.
+
+(* ---- the same for the answers computed from the MEMORY of the trie: every derivation of a sentence scored by RuleScore over the table
+   decoded from the bit-level memory (C03_memory_table_invariants; the two extra hypotheses transfer: mem_table_rest,
+   mem_table_ext_ctx) gives the left-to-right total and the left-to-right final state. *)
+From Kenlm Require Import C03.TrieEndToEnd.
+Corollary C08_memory_any_bracketing_sentence : forall (array : bool) cfg n V (t : atable) pz M,
+  (2 <= n)%nat -> (0 <= V < 2 ^ 32)%Z -> (0 <= cfg)%Z -> TInv n (alookup t) M -> NoDup (map fst t) ->
+  (forall w, alookup t [w] <> None <-> (Z.of_N w < V)%Z) ->
+  (forall k e, alookup t k = Some e -> (- 2 ^ 24 < e_prob e < 2 ^ 24 /\ - 2 ^ 24 < e_bo e < 2 ^ 24)%Z) ->
+  (forall k e, alookup t k = Some e -> (2 <= length k)%nat -> (e_prob e <= 0)%Z) ->
+  (forall k e, alookup t k = Some e -> length k = n -> e_bo e = 0%Z) ->
+  (Z.of_nat (n * length t) < 2 ^ 57)%Z ->
+  (forall k e, alookup t k = Some e -> e_ext e = true -> (2 <= length k)%nat -> exists x, alookup t (x :: k) <> None) ->
+  let T' := mem_table array cfg n V t pz in
+  forall b fast items, good_items T' items ->
+  eval_tree n T' false (bos_state T' b) (Rule true fast items) =
+  ({| c_left := {| l_ptrs := []; l_full := true |};
+      c_right := (if yield_items items then bos_state T' b else get_state n T' (rev (yield_items items) ++ [b])) |},
+   fold_right Z.add 0%Z (spec_seq n M [b] (yield_items items))).
+Proof.
+  intros array cfg n V t pz M Hn HV Hc Inv Hnd Hd Hr Hneg Hl Hs Hx T' b fast items Hg.
+  apply (C08_any_bracketing_sentence n T' M false Hn (mem_table_TInv array cfg n V t pz M Hn HV Hc Inv Hnd Hd Hr Hneg Hl Hs)).
+  - intros _ k e H. apply (mem_table_rest array cfg n V t pz k e H).
+  - apply (mem_table_ext_ctx array cfg n V t pz M Hn HV Hc Inv Hnd Hd Hr Hneg Hl Hs Hx).
+  - exact Hg.
+Qed.
